@@ -336,9 +336,10 @@ pub fn run_program(prog: &Value, out: &mut dyn Write) {
         let pb = if multi { mp.as_ref().unwrap().add(ProgressBar::with_draw_target(Some(10), ProgressDrawTarget::hidden())) }
                  else if setup["hidden"].as_bool().unwrap_or(false) { ProgressBar::with_draw_target(Some(1000), ProgressDrawTarget::hidden()) }
                  else if setup["hz"].as_u64().unwrap_or(0) > 0 { ProgressBar::with_draw_target(Some(10), ProgressDrawTarget::term_like_with_hz(Box::new(spy.clone()), setup["hz"].as_u64().unwrap() as u8)) }
+                 else if setup["nolen"].as_bool().unwrap_or(false) { ProgressBar::with_draw_target(None, ProgressDrawTarget::term_like(Box::new(spy.clone()))) }
                  else { ProgressBar::with_draw_target(Some(10), ProgressDrawTarget::term_like(Box::new(spy.clone()))) };
         if let Some(p0) = setup["pos0"].as_u64() { pb.set_position(p0); }
-        pb.set_style(ProgressStyle::with_template("{spinner}{msg}:{pos}").unwrap().tick_strings(&["0", "1", "2", "3", "4", "5", "6", "7", "8", "9"]));
+        pb.set_style(ProgressStyle::with_template(if setup["nolen"].as_bool().unwrap_or(false) { "{spinner}{msg}:{pos}|{len}" } else { "{spinner}{msg}:{pos}" }).unwrap().tick_strings(&["0", "1", "2", "3", "4", "5", "6", "7", "8", "9"]));
         if setup["named"].as_bool().unwrap_or(false) { pb.set_message(((b'a' + (b as u8) - 1) as char).to_string()); }
         bars.insert(b, pb);
     }
@@ -509,16 +510,19 @@ pub fn run_program(prog: &Value, out: &mut dyn Write) {
         } } }
     }
     // painted frames (between flushes): for every bar line "<spinner><letter>:<pos>" the pair [bar, pos]
-    let mut frames: Vec<Vec<[i64; 2]>> = vec![];
-    let mut cur: Vec<[i64; 2]> = vec![];
+    let mut frames: Vec<Vec<[i64; 3]>> = vec![];
+    let mut cur: Vec<[i64; 3]> = vec![];
     for c in cs.iter() {
         if c["k"] == "flush" { frames.push(std::mem::take(&mut cur)); continue; }
         if c["k"] == "str" || c["k"] == "line" {
             let a: Vec<i64> = c["c"].as_array().map(|a| a.iter().filter_map(|x| x.as_i64()).collect()).unwrap_or_default();
             if a.len() >= 4 && (48..58).contains(&a[0]) && (97..123).contains(&a[1]) && a[2] == 58 {
-                let mut v: i64 = 0; let mut ok = false;
-                for g in a[3..].iter() { if (48..58).contains(g) { v = v * 10 + (g - 48); ok = true; } else { break; } }
-                if ok { cur.push([a[1] - 96, v]); }
+                let mut v: i64 = 0; let mut ok = false; let mut k = 3;
+                for g in a[3..].iter() { if (48..58).contains(g) { v = v * 10 + (g - 48); ok = true; k += 1; } else { break; } }
+                // "...|<len>": what the same frame shows for {len}
+                let mut l: i64 = -1;
+                if k < a.len() && a[k] == 124 { let mut w = 0; let mut any = false; for g in a[k + 1..].iter() { if (48..58).contains(g) { w = w * 10 + (g - 48); any = true; } else { break; } } if any { l = w; } }
+                if ok { cur.push([a[1] - 96, v, l]); }
             }
         }
     }
@@ -528,6 +532,7 @@ pub fn run_program(prog: &Value, out: &mut dyn Write) {
     rec.insert("limcheck".into(), json!(prog["limcheck"].as_u64().unwrap_or(0)));
     rec.insert("frames".into(), json!(frames));
     rec.insert("framecheck".into(), json!(prog["framecheck"].as_bool().unwrap_or(false)));
+    rec.insert("paircheck".into(), json!(prog["paircheck"].as_bool().unwrap_or(false)));
     rec.insert("nbars".into(), json!(nb));
     let tticks = core.log.iter().filter(|s| s["k"] == "Mark" && s["o"] == "ticker_tick").count();
     rec.insert("spinners".into(), json!(spinners));
